@@ -45,7 +45,7 @@ def conn_kinds(topo, sid, slots):
 def pair(topo, variant):
     sims = sorted(topo['types'])
     canon = {'until': variant.get('until', 3), 'K': variant.get('K', 2), 'cache': True, 'lazy': True, 'D': 0, 'sync': sims,
-             'salt': 0, 'no_ref': True, 'future_outputs': variant.get('future_outputs', False), 'no_self': variant.get('no_self', []),
+             'salt': 0, 'no_ref': True, 'future_outputs': variant.get('future_outputs', False), 'future_mixed': variant.get('future_mixed', False), 'no_self': variant.get('no_self', []),
              'gain': variant.get('gain', {})}
 
     def h(eng):
@@ -143,4 +143,11 @@ def jobs(tier):
             if big:
                 j['split_depth'] = 24
             out.append(j)
+    # a hybrid producer whose reply carries a persistent and an event output together with an output time later than the step
+    # (the time entry of a reply): cache on (canonical) against cache off / lazy off / asynchronous replies
+    t = cur['hyb2pm']
+    for v in ({'cache': False, 'lazy': True, 'sync': ['A', 'B']}, {'cache': True, 'lazy': False, 'sync': []}, {'cache': False, 'lazy': True, 'sync': []}):
+        v = dict(v, until=3, K=2, D=0, salt=0, future_outputs=True, future_mixed=True)
+        vid = '|'.join(f'{k}={v[k]}' for k in sorted(v) if k not in ('until',))
+        out.append({'id': f"hyb2pm|futmixed|{vid}".replace(' ', ''), 'harness': 'vk.kernels.c04:pair', 'params': {'topo': t, 'variant': v}, 'budget_s': 300})
     return out
